@@ -4,10 +4,10 @@
    [conn T S i j] : i and j are linked by a chain of T-overlaps all of whose members are in S.
    The touch predicate T is the implementation's own (exported as a matrix by the harness); its
    relation to the exact predicate nf(r+r') >= |z-z'| is C07_touch_* below. *)
-From Coq Require Import List Arith Bool Permutation ZArith Reals Lia.
+From Coq Require Import List Arith Bool Permutation ZArith Reals Lia Lra.
 From Flocq Require Import Core BinarySingleNaN.
 From MPSV Require Import Cluster.ClusterModel Cluster.ClusterProps Cluster.ClusterSpec Cluster.Touch Cluster.TouchFlocq.
-From MPSV Require Import Cluster.FtouchModel Cluster.FtouchSpec.
+From MPSV Require Import Cluster.FtouchModel Cluster.FtouchSpec Cluster.FtouchReal Cluster.FtouchLink.
 Import ListNotations.
 Local Open Scope nat_scope.
 
@@ -192,6 +192,61 @@ Example C07_ex_guard :
   ftouch_b64 3 (ftouch_guard 3) fzero fzero fzero DBL_MAX DBL_MAX = true /\
   ftouch_b64 3 (Bpred (ftouch_guard 3)) fzero fzero fzero DBL_MAX DBL_MAX = false.
 Proof. split; [|split]; vm_compute; reflexivity. Qed.
+
+(* exact overlap by more than the relative margin 8u => true, for ALL finite inputs (any scale, subnormal or huge
+   distances, radii up to DBL_MAX): nothing is assumed about ranges, accuracy of cplx_mod or overflow.  n_ok: 1 <= n < 2^30
+   (the int `2 * n` does not overflow).  Proof: FtouchReal.v (error analysis of the seven roundings incl. underflow of the
+   quotient d and of d*d in cplx_mod) + FtouchLink.v (IEEE operations of Flocq; below the guard nothing overflows on this side) *)
+Theorem C07_ftouch_b64_overlap : forall n ri rj xi yi xj yj,
+  n_ok n -> finite6 ri rj xi yi xj yj -> (0 <= B2R ri)%R -> (0 <= B2R rj)%R ->
+  (exactD xi yi xj yj * (1 + 8 * u64) <= exactL n ri rj)%R ->
+  ftouch_b64 n ri rj xi yi xj yj = true.
+Proof. exact ftouch_b64_overlap. Qed.
+Print Assumptions C07_ftouch_b64_overlap.
+
+(* exact separation by more than 8u, both radii below the guard, one component of zi - zj not subnormal => false.
+   Covers overflow: a difference that overflows gives +inf (or NaN when both do), the last product of cplx_mod may
+   overflow to +inf; the comparison is then false, which is the exact answer. *)
+Theorem C07_ftouch_b64_separated : forall n ri rj xi yi xj yj,
+  n_ok n -> finite6 ri rj xi yi xj yj -> (0 <= B2R ri)%R -> (0 <= B2R rj)%R ->
+  below_guard n ri rj -> normal_distance xi yi xj yj ->
+  (exactL n ri rj * (1 + 8 * u64) < exactD xi yi xj yj)%R ->
+  ftouch_b64 n ri rj xi yi xj yj = false.
+Proof. exact ftouch_b64_separated. Qed.
+Print Assumptions C07_ftouch_b64_separated.
+
+(* below the guard the left side n * (frad[i] + frad[j]) cannot overflow: it is finite, equal to the two-rounding
+   expression, and the exact n (ri + rj) is at most DBL_MAX *)
+Theorem C07_ftouch_lhs_no_overflow : forall n ri rj,
+  n_ok n -> is_finite ri = true -> is_finite rj = true -> (0 <= B2R ri)%R -> (0 <= B2R rj)%R -> below_guard n ri rj ->
+  is_finite (ftouch_lhs n ri rj) = true /\
+  B2R (ftouch_lhs n ri rj) = rnd64 (IZR n * rnd64 (B2R ri + B2R rj)) /\ (exactL n ri rj <= B2R DBL_MAX)%R.
+Proof. exact ftouch_lhs_no_overflow. Qed.
+Print Assumptions C07_ftouch_lhs_no_overflow.
+
+(* accuracy of cplx_mod AS CODED (|b| <= |a|, a <> 0: the branch taken), derived, not assumed: the unrounded last product is
+   within (1 +- 9/4 u)(1 +- u) of the exact modulus whatever the magnitudes (underflow of b/a and of its square included) *)
+Theorem C07_cplx_mod_accuracy : forall a b : R, a <> 0%R -> (Rabs b <= Rabs a)%R ->
+  let H := sqrt (a * a + b * b) in
+  ((1 - 9 / 4 * u64) * (1 - u64) * H <= mod_pre a b <= (1 + 9 / 4 * u64) * (1 + u64) * H)%R /\ (Rabs a <= mod_pre a b)%R.
+Proof. exact mod_pre_bounds. Qed.
+Print Assumptions C07_cplx_mod_accuracy.
+
+(* the hypotheses are satisfiable: centres 0 and 1; n = 2 with radii 1, 1 overlaps; n = 1 with radii 0, 0 is separated *)
+Example C07_ex_ftouch_hyps :
+  (exactD fzero fzero fone fzero * (1 + 8 * u64) <= exactL 2 fone fone)%R /\ ftouch_b64 2 fone fone fzero fzero fone fzero = true /\
+  (exactL 1 fzero fzero * (1 + 8 * u64) < exactD fzero fzero fone fzero)%R /\ below_guard 1 fzero fzero /\
+  normal_distance fzero fzero fone fzero /\ ftouch_b64 1 fzero fzero fzero fzero fone fzero = false.
+Proof.
+  assert (D1 : exactD fzero fzero fone fzero = 1%R).
+  { unfold exactD. rewrite B2R_fone. simpl (B2R fzero). replace ((0 - 1) * (0 - 1) + (0 - 0) * (0 - 0))%R with 1%R by ring. apply sqrt_1. }
+  pose proof u64_small as Hu. pose proof (proj1 u64_bounds) as Hu0.
+  rewrite D1. unfold exactL. rewrite B2R_fone. simpl (B2R fzero).
+  split; [lra|]. split; [vm_compute; reflexivity|]. split; [lra|]. split; [split; vm_compute; reflexivity|].
+  split; [|vm_compute; reflexivity].
+  left. rewrite B2R_fone. simpl (B2R fzero). replace (0 - 1)%R with (Ropp 1) by ring. rewrite Rabs_Ropp, Rabs_R1.
+  change 1%R with (bpow radix2 0). apply bpow_le. lia.
+Qed.
 
 (* REFUTED: "separated by more than 8u => false" does not hold when both components of zi - zj are subnormal: the last
    product of cplx_mod has no relative accuracy below 2^-1022.  Witness n = 1, frad = {2^-1074, 0}, zi = (2^-1074, 2^-1074),
